@@ -22,7 +22,9 @@ def run(chk, facts, tier):
     chk.rule('fragment-alloc-and-type', 'try_send_pdus allocates min(transmit_size_ + overhead, max_tx_size()), copies min(buffer, transmit_size_) bytes and types the fragment start/continuation by first_fragment', floor=3)
     for fn in variants(facts, SB + 'add_to_receive_buffer', chk):
         b, e = fn.params[0]['n'], fn.params[1]['n']
-        cs = local_init(fn, 'copy_size')
+        cands = [d for d in fn.body.find(lambda n: n.k == 'VarDecl' and n.c) if strip_casts(d.c[0]).is_call('min') and any(is_name(a, 'receive_size_') for a in strip_casts(d.c[0]).args())]
+        CS = cands[0].n if len(cands) == 1 else 'copy_size'
+        cs = strip_casts(cands[0].c[0]) if len(cands) == 1 else None
         clamp = cs is not None and cs.is_call('min') and any(is_name(a, 'receive_size_') for a in cs.args()) and any(as_binop(a) is not None and as_binop(a)[0] == '-' and is_name(as_binop(a)[1], e) and is_name(as_binop(a)[2], b) for a in cs.args())
         copies = fn.body.calls(('copy', 'copy_n', 'memcpy'))
         ok = clamp and len(copies) == 1
@@ -32,16 +34,16 @@ def run(chk, facts, tier):
             a = c.args()
             if c.cn == 'copy':
                 x = as_binop(a[1])
-                ok = is_name(a[0], b) and x is not None and x[0] == '+' and is_name(x[1], b) and is_name(x[2], 'copy_size')
+                ok = is_name(a[0], b) and x is not None and x[0] == '+' and is_name(x[1], b) and is_name(x[2], CS)
                 why = 'std::copy copies [begin, %s): the fragment length, not the clamped length, is written into the reassembly buffer' % a[1].text()
             else:
-                ok = is_name(a[0], b) and is_name(a[1] if c.cn == 'copy_n' else a[2], 'copy_size')
+                ok = is_name(a[0], b) and is_name(a[1] if c.cn == 'copy_n' else a[2], CS)
                 why = 'copy length is not the clamp variable'
             dst = a[-1] if c.cn != 'memcpy' else a[0]
             ea = elem_addr(dst)
             ok = ok and ea is not None and is_name(ea[0], 'receive_buffer_') and is_name(ea[1], 'receive_buffer_used_')
         upd = {target_name(tgt): (op, val) for tgt, op, val, s in stores(fn.body)}
-        ok = ok and upd.get('receive_buffer_used_', (None, None))[0] == '+=' and is_name(upd['receive_buffer_used_'][1], 'copy_size') and upd.get('receive_size_', (None, None))[0] == '-=' and is_name(upd['receive_size_'][1], 'copy_size')
+        ok = ok and upd.get('receive_buffer_used_', (None, None))[0] == '+=' and is_name(upd['receive_buffer_used_'][1], CS) and upd.get('receive_size_', (None, None))[0] == '-=' and is_name(upd['receive_size_'][1], CS)
         chk.instance('reassembly-copy-clamped', fn, 'copy(begin, begin + copy_size, &receive_buffer_[used])', ok, '' if ok else (why or 'fill level / remaining size not advanced by the clamp'), key='copy')
     for fn in variants(facts, SB + 'next_ll_l2cap_received', chk):
         if not fn.body.calls('add_to_receive_buffer'):
